@@ -20,7 +20,8 @@ for a in sys.argv[4:]:
         use_tree = True
 env = dict(os.environ, PYTHONPATH=f"{wt}/src")
 mut = f"{wt}/MUTATION"
-out = f"/verif/seeded/{name}"
+HERE = os.path.dirname(os.path.dirname(os.path.abspath(__file__)))
+out = f"{HERE}/seeded/{name}"
 os.makedirs(out, exist_ok=True)
 
 
@@ -47,17 +48,22 @@ if confirmed:
     if use_tree:
         import tempfile
         evd = tempfile.mkdtemp(prefix="eval_")
-        r = sh(f"/verif/bin/eval_tree {wt} {evd} {' '.join(checks)}")
+        r = sh(f"{HERE}/bin/eval_tree {wt} {evd} {' '.join(checks)}")
         shutil.rmtree(evd, ignore_errors=True)
     else:
-        r = sh(f"/verif/bin/try_patch {out}/patch.diff {' '.join(checks)}")
+        r = sh(f"{HERE}/bin/try_patch {out}/patch.diff {' '.join(checks)}")
     print(r.stdout)
     for line in r.stdout.splitlines():
         if line.startswith("C") and " rc=" in line:
             cid, rest = line.split(" ", 1)
             rc = int(rest.split("rc=")[1].split()[0])
             results[cid] = dict(rc=rc, violation=("VIOLATION" in rest), no_failing_input=("no-failing-input-found" in rest))
-meta = dict(property=pid, name=name, confirmed=confirmed,
+first = None
+if os.path.exists(f"{out}/meta.json"):
+    old = json.load(open(f"{out}/meta.json"))
+    first = old.get("first_evaluation") or dict(caught_by=old.get("caught_by"), caught_with_failing_input=old.get("caught_with_failing_input"),
+                                                note="result of the quick checks as they stood when the change was first evaluated")
+meta = dict(property=pid, name=name, confirmed=confirmed, first_evaluation=first,
             tests_with_change=t, tests_without_change=t0,
             demo_with_change=dict(rc=d1.returncode, tail=(d1.stdout + d1.stderr)[-400:]),
             demo_without_change=dict(rc=d0.returncode, tail=(d0.stdout + d0.stderr)[-200:]),
